@@ -1,4 +1,5 @@
 import Req.Pool.AltSvcParse
+import Req.Pool.MetaCharset
 /-!
 C07 — property theorems.
 
@@ -194,5 +195,76 @@ theorem parse_classified (s : Bytes) : ∃ es err, parse s = some (es, err) ∧ 
 example :
     parse [104,51,61,34,58,52,52,51,34,59,32,109,97,61,51,54,48,48,44,32,104,50,61,34,97,58,56,34] =
       some ([⟨[104,51], [], [52,52,51], true⟩, ⟨[104,50], [97], [56], false⟩], .eof) := by decide
+
+end Req.Props.C07
+
+/-! ## Part 2: `charsets.fromMetaElement` terminates on every attribute value -/
+namespace Req.Props.C07
+open Req.MetaCharset Req.Proto
+
+theorem afterCharset_lt (s r : Bytes) (h : afterCharset s = some r) : r.length < s.length := by
+  induction s with
+  | nil => simp [afterCharset] at h
+  | cons c cs ih =>
+    unfold afterCharset at h
+    split at h
+    next hp =>
+      simp only [Option.some.injEq] at h
+      subst h
+      -- "charset" is a prefix of c :: cs, so there are at least 7 bytes
+      have hlen : 7 ≤ (c :: cs).length := by
+        match cs, hp with
+        | c1 :: c2 :: c3 :: c4 :: c5 :: c6 :: _, _ => simp
+        | [], hp => simp [isPrefixOf, charsetLit] at hp
+        | [_], hp => simp [isPrefixOf, charsetLit] at hp
+        | [_, _], hp => simp [isPrefixOf, charsetLit] at hp
+        | [_, _, _], hp => simp [isPrefixOf, charsetLit] at hp
+        | [_, _, _, _], hp => simp [isPrefixOf, charsetLit] at hp
+        | [_, _, _, _, _], hp => simp [isPrefixOf, charsetLit] at hp
+      simp only [List.length_drop]
+      omega
+    next =>
+      have := ih h
+      simp only [List.length_cons]
+      omega
+
+theorem trimLeftWs_le (s : Bytes) : (trimLeftWs s).length ≤ s.length := by
+  induction s with
+  | nil => simp [trimLeftWs]
+  | cons c cs ih =>
+    unfold trimLeftWs
+    split
+    · simp only [List.length_cons]; omega
+    · simp
+
+theorem fromMeta_some (fuel : Nat) (s : Bytes) (h : s.length < fuel) : (fromMeta fuel s).isSome := by
+  induction fuel generalizing s with
+  | zero => omega
+  | succ n ih =>
+    unfold fromMeta
+    split
+    · simp
+    · split
+      · simp
+      · rename_i s1 hs1
+        have h1 := afterCharset_lt s s1 hs1
+        have h2 := trimLeftWs_le s1
+        simp only
+        split
+        · split
+          · simp
+          · split
+            · split <;> simp
+            · simp
+        · exact ih _ (by omega)
+
+/-- **fromMeta_total** (C07): the meta-charset scanner terminates with a value on every input. -/
+theorem fromMeta_total (s : Bytes) : (fromMetaElement s).isSome :=
+  fromMeta_some _ s (by omega)
+
+/-- Non-vacuity: `text/html; charset = "gbk"` yields `gbk`, after skipping a `charset` that is
+not followed by `=`. -/
+example : fromMetaElement [99,104,97,114,115,101,116,120,59,32,99,104,97,114,115,101,116,32,61,32,34,103,98,107,34]
+    = some [103, 98, 107] := by decide
 
 end Req.Props.C07
